@@ -156,6 +156,42 @@ def _validate_traces(ctx, files):
     return accepted
 
 
+def _selftest(ctx, files):
+    """The binding binds: a recorded run with one corrupted field / one removed line must be rejected."""
+    src = next((tf for tf in files if tf["area"] == 16 and tf["k"] == 5 and tf["lines"] > 50), None) or files[0]
+    lines = open(src["path"]).read().splitlines()
+    resets = [i for i, l in enumerate(lines) if '"ev":"reset"' in l]
+    lines = lines[:resets[min(12, len(resets) - 1)]] if len(resets) > 1 else lines
+    out = {}
+    for name in ("corrupt_request", "drop_getter_answer"):
+        mod, done = [], False
+        for l in lines:
+            e = json.loads(l)
+            if not done and name == "corrupt_request" and e.get("ev") == "enter" and len(e["coords"]) >= 2:
+                free = [x for x in range(src["area"]) if x not in e["coords"]]
+                if free:
+                    e["coords"] = sorted(e["coords"][1:] + [free[0]])
+                    done = True
+            elif not done and name == "drop_getter_answer" and e.get("ev") == "ret" and not e.get("len0") and e.get("served"):
+                done = True
+                continue
+            mod.append(json.dumps(e, separators=(",", ":")))
+        p = os.path.join(ctx.work, "selftest_%s.ndjson" % name)
+        open(p, "w").write("\n".join(mod) + "\n")
+        cfg = os.path.join(ctx.work, "selftest_%s.cfg" % name)
+        open(cfg, "w").write(TRACE_CFG % {"path": p, "k": src["k"], "coords": ", ".join(str(x) for x in range(src["area"]))})
+        wd = os.path.join(ctx.work, "tv_selftest_" + name)
+        os.makedirs(wd, exist_ok=True)
+        r = vlib.run_tlc(os.path.join(vlib.VERIF, "spec", "light", "LightTrace.tla"), cfg, wd, workers=1, timeout=600,
+                         deadlock=False, heap="2g")
+        rejected = done and (r.violated is not None or not r.ok)
+        out[name] = {"mutated": done, "rejected": rejected}
+        ctx.log("selftest %s: mutated=%s rejected=%s (violated=%s)" % (name, done, rejected, r.violated))
+        if done and not rejected:
+            ctx.inconclusive("selftest: LightTrace.tla accepted a recorded run with %s -- the binding does not bind" % name)
+    ctx.cover(selftest=out)
+
+
 def run(ctx):
     quick = ctx.quick
     ctx.assume("getter contract: GetSamples returns a slice of the requested length (empty samples for misses) or a zero-length slice")
@@ -223,6 +259,8 @@ def run(ctx):
         return
     accepted = _validate_traces(ctx, files)
     ctx.cover(traces_validated_against_impl=accepted)
+    if not quick:
+        _selftest(ctx, files)
     for tf in files[:2]:
         try:
             with open(tf["path"]) as f:
